@@ -127,6 +127,12 @@ func (cr *ChunkReader) Read(p []byte) (int, error) {
 	if cr.checksumHash != nil {
 		cr.checksumHash.Write(p[:n])
 	}
+	if err == io.EOF {
+		// the stream ended before the terminating chunk was seen (the end of
+		// a complete stream is reported when that chunk is parsed): the
+		// signature of the last data chunk has not been verified
+		return n, io.ErrUnexpectedEOF
+	}
 	return n, err
 }
 
